@@ -9,7 +9,8 @@ import (
 )
 
 type Index struct {
-	Name    string
+	Name string
+	// Cols: column names; "" is a functional key part (non-unique indexes only)
 	Cols    []string
 	Unique  bool
 	Primary bool
